@@ -123,4 +123,18 @@ PROPS = {
         'assumptions': [],
         'targets': ['Corr/Dispatch.vo', 'Proto/Run.vo'],
     },
+    'C11': {
+        'level_text': "Theorems: over any field of exponents, for non-degenerate exponents the responder's and the initiator's final comparisons hold iff the secrets are equal (ring/field proof); on the state machine, success is reported only by the handlers of messages 3 and 4. The symbolic SMP model (group elements as sign/exponent, real group order, parametric hash) is compared with the Go code every run on honest runs with equal/different secrets (empty, long, binary, one bit apart), with/without question, either initiator, repeated runs with traffic in between, v2/v3, and a relay between two separately keyed sessions.",
+        'level_note': "the algebra theorem is stated on the exponent form of the equations (the model's EKnown elements follow the same algebra); primality of q and the binding of the secret to fingerprints/ssid through SHA-256 are assumptions; honest-run proof verification is covered by correspondence, not by theorem.",
+        'trusted': ['the conversation model is symbolic: DH values are exponent ids, shared secrets unordered pairs, keys (secret, role) terms, a MAC verifies iff it was computed with the same key over the same fields (perfect-cryptography idealisation)', 'internal projections (key ids, list lengths, state names) are read through the verif-tagged hook VerifSnapshot'],
+        'assumptions': ['q prime (RFC 3526 group 5), SHA-256 collision-free, exponents not 0 mod q'],
+        'targets': ['Corr/Dispatch.vo', 'Proto/Run.vo'],
+    },
+    'C12': {
+        'level_text': 'Theorems for all received values and states: the responder (message 3) and the initiator (message 4) report success only after every range check, both zero-knowledge proofs and the final comparison evaluated to true; no other message yields success. Refuted for version 2 (no range checks): a peer using exponent 0 obtains success without knowing the secret (kernel-evaluated witness = known finding; version 3 answers cheated). Every field of every SMP message x 8 boundary classes, miscounts, user calls in unexpected states, v2/v3, compared with the symbolic model every run; recovery oracle (fresh honest run succeeds).',
+        'level_note': 'absence of panics under v3 and recovery are checked by correspondence + oracle (the model returns a panic outcome where ModInverse would return nil), not yet by theorem.',
+        'trusted': ['the conversation model is symbolic: DH values are exponent ids, shared secrets unordered pairs, keys (secret, role) terms, a MAC verifies iff it was computed with the same key over the same fields (perfect-cryptography idealisation)', 'internal projections (key ids, list lengths, state names) are read through the verif-tagged hook VerifSnapshot'],
+        'assumptions': ['generic-group idealisation for values of unknown discrete logarithm (a tainted value never satisfies an equation)'],
+        'targets': ['Corr/Dispatch.vo', 'Proto/Run.vo'],
+    },
 }
